@@ -29,6 +29,10 @@ func c17define() c17prog {
 	cmd.SetCommandFn(fn)
 	sub := cmd.NewCommand("sub", "a sub command")
 	sub.SetCommandFn(fn)
+	// a dynamic completion function whose candidates need not start with the typed word
+	sub.ArgCompletionsFns(func(target string, prev []string, partial string) []string {
+		return []string{"README.adoc", "zebra"}
+	})
 	wrap := opt.NewCommand("wrap", "a wrapper")
 	wrap.UnsetOptions().SetUnknownMode(Pass)
 	wrap.SetCommandFn(fn)
@@ -42,11 +46,13 @@ var c17optsRoot = []string{"flag", "f", "str", "string", "choice", "level", "hel
 var c17optsCmd = []string{"flag", "f", "str", "string", "choice", "level", "help", "?", "cmdopt"}
 var c17cmdsRoot = []string{"cmd", "wrap", "cmdother", "help"}
 var c17cmdsCmd = []string{"sub", "help", "alpha", "alps", "beta"}
+var c17cmdsSub = []string{"help"}
+var c17dynamic = []string{"README.adoc", "zebra"}
 
 func VerifC17_Completion() {
 	vNativeReset()
 	zsh := vBool("zsh")
-	shape := vInt("earlier", 0, 4)
+	shape := vInt("earlier", 0, 5)
 	w := vString("w")
 	vAssume(vMatches(w, `[^\t\n\f\r ]*`))
 	vAssume(!strings.Contains(w, "="))
@@ -66,6 +72,9 @@ func VerifC17_Completion() {
 	case 4:
 		earlier, prior = "--flag cmd --cmdopt ", []string{"--flag", "cmd", "--cmdopt"}
 		opts, cmds = c17optsCmd, c17cmdsCmd
+	case 5:
+		earlier, prior = "cmd sub ", []string{"cmd", "sub"}
+		opts, cmds = c17optsCmd, c17cmdsSub
 	}
 	vSetenv("COMP_LINE", "prog "+earlier+w)
 	if zsh {
@@ -112,6 +121,10 @@ func VerifC17_Completion() {
 				expected = append(expected, k)
 			}
 		}
+		if shape == 5 {
+			// plus whatever the dynamic completion function returns
+			expected = append(expected, c17dynamic...)
+		}
 	}
 	for _, k := range expected {
 		vAssert("offers-every-applicable-name", offered[k])
@@ -119,6 +132,9 @@ func VerifC17_Completion() {
 	vAssert("offers-nothing-else", len(offered) == len(expected))
 	// every offered option or command is accepted by the parser at that position
 	for _, k := range expected {
+		if k == "README.adoc" || k == "zebra" {
+			continue // free-form arguments, not names the parser knows
+		}
 		q := c17define()
 		tok := k
 		if strings.HasPrefix(w, "-") {
